@@ -30,22 +30,27 @@ struct Carrier {
     size_t key{0};
 };
 
-/** random opcode soup around the sigop opcodes; decoys (sigop bytes inside pushes, OP_0 before CHECKMULTISIG) included */
-Bytes sigop_body(Src& s, unsigned max_items, unsigned max_nonpush, size_t max_bytes)
+/** random opcode soup around the sigop opcodes, generated as runs (few choice bytes per script); decoys (sigop bytes inside pushes,
+ *  OP_0 / OP_1NEGATE before CHECKMULTISIG) included */
+Bytes sigop_body(Src& s, unsigned max_runs, unsigned max_nonpush, size_t max_bytes)
 {
     Bytes b;
     unsigned nonpush = 0;
-    unsigned n = s.range<unsigned>(0, max_items);
-    for (unsigned i = 0; i < n && nonpush < max_nonpush && b.size() + 12 < max_bytes; ++i) {
-        switch (s.range<unsigned>(0, 8)) {
-        case 0: case 1: b.push_back(0xac); nonpush++; break;
-        case 2: b.push_back(0xad); nonpush++; break;
-        case 3: b.push_back(0xae); nonpush++; break;
-        case 4: b.push_back(uint8_t(0x51 + s.index(16))); b.push_back(s.boolean() ? 0xaf : 0xae); nonpush++; break;
-        case 5: { unsigned k = s.range<unsigned>(1, 8); b.push_back(uint8_t(k)); for (unsigned j = 0; j < k; ++j) b.push_back(s.boolean() ? 0xac : 0xae); break; }
-        case 6: b.push_back(0x61); nonpush++; break;
-        case 7: b.push_back(0x00); b.push_back(0xae); nonpush++; break;
-        default: b.push_back(0x4f); b.push_back(0xae); nonpush++; break; // OP_1NEGATE before CHECKMULTISIG: not OP_1..OP_16
+    unsigned runs = s.range<unsigned>(0, max_runs);
+    for (unsigned r = 0; r < runs; ++r) {
+        unsigned item = s.range<unsigned>(0, 8);
+        unsigned rep = s.range<unsigned>(1, 40);
+        for (unsigned i = 0; i < rep && nonpush < max_nonpush && b.size() + 12 < max_bytes; ++i) {
+            switch (item) {
+            case 0: case 1: b.push_back(0xac); nonpush++; break;
+            case 2: b.push_back(0xad); nonpush++; break;
+            case 3: b.push_back(0xae); nonpush++; break;
+            case 4: b.push_back(uint8_t(0x51 + (i + rep) % 16)); b.push_back((i & 1) ? 0xaf : 0xae); nonpush++; break;
+            case 5: { unsigned k = 1 + (i + rep) % 8; b.push_back(uint8_t(k)); for (unsigned j = 0; j < k; ++j) b.push_back((j & 1) ? 0xac : 0xae); break; }
+            case 6: b.push_back(0x61); nonpush++; break;
+            case 7: b.push_back(0x00); b.push_back(0xae); nonpush++; break;
+            default: b.push_back(0x4f); b.push_back(0xae); nonpush++; break; // OP_1NEGATE before CHECKMULTISIG: not OP_1..OP_16
+            }
         }
     }
     return b;
@@ -140,7 +145,7 @@ RefBlockVerdict ref_judge(const CBlock& b, int height, const std::map<COutPoint,
 
 } // namespace
 
-VERIF_TARGET(c06_limits, nullptr, 64, 700,
+VERIF_TARGET(c06_limits, nullptr, 64, 900,
              "a regtest node (104-block base) + one funding block creating sigop carriers (P2SH redeem scripts, P2WSH and P2SH-P2WSH witness scripts, bare outputs "
              "spent with sigops in the scriptSig, P2WPKH, P2SH-P2WPKH; opcode soup of CHECKSIG(VERIFY)/CHECKMULTISIG(VERIFY) with and without OP_n, decoys inside "
              "pushes) and 8 tuner P2WSH outputs; then 2-6 probe blocks on the tip judged by TestBlockValidity (last one also delivered): sigop cost tuned to "
@@ -180,22 +185,22 @@ VERIF_TARGET(c06_limits, nullptr, 64, 700,
             c.key = s.index(sim.keys.keys.size());
             switch (c.kind) {
             case K_P2SH:
-                c.script = wrap_unexecuted(sigop_body(s, 150, 190, 500), true);
+                c.script = wrap_unexecuted(sigop_body(s, 6, 190, 500), true);
                 c.spk = GetScriptForDestination(ScriptHash(S(c.script)));
                 break;
             case K_P2WSH:
-                c.script = wrap_unexecuted(sigop_body(s, 190, 190, 3000), true);
+                c.script = wrap_unexecuted(sigop_body(s, 8, 190, 3000), true);
                 c.spk = GetScriptForDestination(WitnessV0ScriptHash(S(c.script)));
                 break;
             case K_P2SH_P2WSH: {
-                c.script = wrap_unexecuted(sigop_body(s, 190, 190, 3000), true);
+                c.script = wrap_unexecuted(sigop_body(s, 8, 190, 3000), true);
                 CScript inner = GetScriptForDestination(WitnessV0ScriptHash(S(c.script)));
                 c.redeem = ToBytes(inner);
                 c.spk = GetScriptForDestination(ScriptHash(inner));
                 break;
             }
             case K_BARE:
-                c.script = wrap_unexecuted(sigop_body(s, 190, 190, 3000), false);
+                c.script = wrap_unexecuted(sigop_body(s, 8, 190, 3000), false);
                 c.spk = sim.keys.Script(SpkType::BARE_TRUE);
                 break;
             case K_P2WPKH: c.spk = sim.keys.Script(SpkType::P2WPKH, c.key); break;
@@ -277,7 +282,7 @@ VERIF_TARGET(c06_limits, nullptr, 64, 700,
     };
 
     const unsigned nprobes = s.range<unsigned>(2, 6);
-    for (unsigned pi = 0; pi < nprobes && !s.exhausted(); ++pi) {
+    for (unsigned pi = 0; pi < nprobes; ++pi) { // an exhausted buffer yields the simplest probes (zeros), never fewer probes
         const unsigned pk = s.range<unsigned>(0, 9);
         const int delta = s.pick<int>({0, 1, -1, 0, 2, -2, 3, 4, -3, -4, 1});
         if (pk <= 4) {
@@ -289,7 +294,7 @@ VERIF_TARGET(c06_limits, nullptr, 64, 700,
             // coinbase scriptSig: height + up to ~80 bytes with some legacy sigops
             Bytes cbss = bip34;
             unsigned cb_sig = s.range<unsigned>(0, 60);
-            for (unsigned i = 0; i < cb_sig; ++i) cbss.push_back(s.boolean() ? 0xac : 0x61);
+            for (unsigned i = 0; i < cb_sig; ++i) cbss.push_back((i % 3) ? 0xac : 0x61);
             if (cbss.size() < 2) cbss.push_back(0x00);
             // cost without tuner/bulk
             auto cost_of = [&](const CTransactionRef& tx) { std::vector<Bytes> sp; for (auto& in : tx->vin) sp.push_back(ToBytes(spk_of.at(in.prevout))); return RefTxSigOpCost(*tx, sp); };
